@@ -1,9 +1,6 @@
 package main
 
 import (
-	"go/token"
-	"strings"
-
 	"golang.org/x/tools/go/ssa"
 )
 
@@ -11,10 +8,10 @@ func init() {
 	register(&propDef{
 		ID:      "C17",
 		Level:   "other",
-		Explain: "Compression decision and typestate rules on the CFG of proxy/gzip: (D1) the gzip response writer is installed only on the acceptsGzip()==true edge, the gzip writer only on the isCompressable()==true edge; isCompressable returns false on the Content-Encoding != \"\" edge and otherwise the content-type regexp's verdict; acceptsGzip only returns false or Contains(Accept-Encoding, gzip); (H1) on the compress edge Del(Content-Length) and Set(Content-Encoding, gzip) both lie on every path to the underlying WriteHeader, no other path touches those headers, and the status code parameter is forwarded unchanged on all paths; (T1) decide-once: the writer field is stored only under writer == nil, the deciding method assigns it on every path of that edge, and every use of it is either under writer != nil or after the deciding call on the nil edge; (T2) pooled gzip.Writer typestate: Get -> Reset(underlying ResponseWriter) -> use -> Close -> Put, Close before Put and nothing after Put, and the handler defers the response writer's Close before serving; (W1) Write hands its argument unchanged to the decided writer and returns its results; (V1) Vary: Accept-Encoding is added before any branching. (T3) the pooled writer is returned at most once per response. Not decided: that compress/gzip round-trips the bytes (library behaviour).",
+		Explain: "Compression decision and typestate rules on the CFG of proxy/gzip. All sites are found by role inside the package (the struct type that declares Write and WriteHeader; its io.Writer / *gzip.Writer / http.ResponseWriter fields; calls of ServeHTTP, sync.Pool.Get/Put, gzip.Writer.Reset/Close, Header.Set/Del), conditions are branch FACTS that may be spelled inline, as a boolean helper, as a && b or as a guard clause, and order rules are evaluated on the paths of the response writer's methods with same-package helpers inlined. (D1) the compressing response writer is created/served only where strings.Contains(request Accept-Encoding, gzip) is established and the plain serve is not on that edge; a *gzip.Writer becomes the active writer only where the configured expression's MatchString(Content-Type) == true and Content-Encoding == \"\" are both established; (H1) on every path Del(Content-Length) and Set(Content-Encoding, gzip) precede the wrapped WriteHeader when the gzip writer is installed, the decision is not taken after the headers were sent, Content-Length/Content-Encoding are touched (Set/Add/Del/map) only on the compress edge, the wrapped WriteHeader receives exactly WriteHeader's code parameter and is reached on every path of WriteHeader; (T1) decide-once: the writer field is stored only under writer == nil, only with the gzip writer or the wrapped writer, WriteHeader leaves it decided on every path, and every use of it is after a decision; (T2) pooled gzip.Writer typestate: the active gzip writer comes from sync.Pool.Get, is Reset to the wrapped ResponseWriter before it is written to, Close before Put, nothing after Put, Close under gzipWriter != nil, and the handler defers the release between creating the writer and serving; (T3) every Pool.Put is reached through exactly one chain of static call sites with one deferred link, or the release clears the field; (W1) Write hands its parameter unchanged to the decided writer and returns its results; (V1) Vary: Accept-Encoding precedes every serve on every path. Not decided: that compress/gzip round-trips the bytes (library behaviour).",
 		Run:     runC17,
 		Trusted: []string{"compress/gzip.Writer produces a stream that decompresses to the bytes written", "sync.Pool hands an object to one user at a time"},
-		Mutants: []mutant{
+		Mutants: append([]mutant{
 			{Name: "drop Del(Content-Length)", File: "proxy/gzip/gzip_handler.go", Old: "\t\t\tgrw.Header().Del(headerContentLength)\n", New: "", Expect: "C17.H1"},
 			{Name: "set headers after WriteHeader", File: "proxy/gzip/gzip_handler.go", Old: "\t\t\tgrw.Header().Set(headerContentEncoding, encodingGzip)\n", New: "\t\t\tdefer grw.Header().Set(headerContentEncoding, encodingGzip)\n", Expect: "C17.H1"},
 			{Name: "status code replaced", File: "proxy/gzip/gzip_handler.go", Old: "\tgrw.ResponseWriter.WriteHeader(code)", New: "\tgrw.ResponseWriter.WriteHeader(http.StatusOK)", Expect: "C17.H1"},
@@ -31,7 +28,7 @@ func init() {
 			{Name: "Write drops the last byte", File: "proxy/gzip/gzip_handler.go", Old: "\treturn grw.writer.Write(b)", New: "\treturn grw.writer.Write(b[:len(b)-1])", Expect: "C17.W1"},
 			{Name: "Vary only when compressing", File: "proxy/gzip/gzip_handler.go", Old: "\t\tw.Header().Add(headerVary, headerAcceptEncoding)\n\n\t\tif acceptsGzip(r) {", New: "\t\tif acceptsGzip(r) {\n\t\t\tw.Header().Add(headerVary, headerAcceptEncoding)", Expect: "C17.V1"},
 			{Name: "benign: explicit else branch order swapped", File: "proxy/gzip/gzip_handler.go", Old: "\t\tif acceptsGzip(r) {\n\t\t\tgzWriter := NewGzipResponseWriter(w, contentTypes)\n\t\t\tdefer gzWriter.Close()\n\t\t\th.ServeHTTP(gzWriter, r)\n\t\t} else {\n\t\t\th.ServeHTTP(w, r)\n\t\t}", New: "\t\tif !acceptsGzip(r) {\n\t\t\th.ServeHTTP(w, r)\n\t\t\treturn\n\t\t}\n\t\tgzWriter := NewGzipResponseWriter(w, contentTypes)\n\t\tdefer gzWriter.Close()\n\t\th.ServeHTTP(gzWriter, r)", Expect: ""},
-		},
+		}, c17moreMutants()...),
 	})
 }
 
@@ -43,371 +40,6 @@ func headerCall(i ssa.Instruction, method string) (string, *ssa.CallCommon, bool
 	}
 	k, ok := constString(cc.Args[1])
 	return k, cc, ok
-}
-
-func runC17(c *Ctx) {
-	const G = "proxy/gzip"
-	wh := c.method(G, "GzipResponseWriter", "WriteHeader")
-	wr := c.method(G, "GzipResponseWriter", "Write")
-	cl := c.method(G, "GzipResponseWriter", "Close")
-	isComp := c.fn(G, "isCompressable")
-	accepts := c.fn(G, "acceptsGzip")
-	newH := c.fn(G, "NewGzipHandler")
-	for _, x := range []struct {
-		f *ssa.Function
-		n string
-	}{{wh, "WriteHeader"}, {wr, "Write"}, {cl, "Close"}, {isComp, "isCompressable"}, {accepts, "acceptsGzip"}, {newH, "NewGzipHandler"}} {
-		if !c.need("C17.D1", x.f, "gzip."+x.n) {
-			return
-		}
-	}
-	isWriterField := func(v ssa.Value) bool { _, ok := fieldOf(v, "gzip.GzipResponseWriter", "writer"); return ok }
-	isGzField := func(v ssa.Value) bool { _, ok := fieldOf(v, "gzip.GzipResponseWriter", "gzipWriter"); return ok }
-
-	// ---- D1: handler
-	var handler *ssa.Function
-	for _, f := range newH.AnonFuncs {
-		if f.Signature.Params().Len() == 2 {
-			handler = f
-		}
-	}
-	if handler == nil {
-		c.undecided("C17.D1", "gzip.NewGzipHandler|handler closure", "not found")
-		return
-	}
-	newW := c.fn(G, "NewGzipResponseWriter")
-	nNew := 0
-	eachInstr(handler, func(i ssa.Instruction) {
-		if newW != nil && staticCalleeIs(i, newW) {
-			nNew++
-			c.check("C17.D1", "gzip.NewGzipHandler$1|gzip response writer only when the client accepts gzip", i.Pos(), factCallTo(i.Block(), accepts, true) != nil,
-				"the compressing response writer must be created only on the acceptsGzip(r) == true edge; otherwise a client that did not ask for gzip receives a compressed body")
-		}
-	})
-	c.atLeast("C17.D1", "NewGzipResponseWriter calls in the handler", nNew, 1)
-	// the other edge serves with the original writer
-	nServe := 0
-	eachInstr(handler, func(i ssa.Instruction) {
-		cc := callCommon(i)
-		if cc == nil || !cc.IsInvoke() || cc.Method.Name() != "ServeHTTP" {
-			return
-		}
-		nServe++
-		if _, isParam := stripIface(cc.Args[0]).(*ssa.Parameter); isParam {
-			c.check("C17.D1", "gzip.NewGzipHandler$1|pass-through serve on the non-gzip edge", i.Pos(), factCallTo(i.Block(), accepts, false) != nil || factCallTo(i.Block(), accepts, true) == nil,
-				"the original ResponseWriter is used when the client does not accept gzip")
-		} else {
-			c.check("C17.D1", "gzip.NewGzipHandler$1|gzip serve on the gzip edge", i.Pos(), factCallTo(i.Block(), accepts, true) != nil, "the wrapped writer may be served only on the acceptsGzip edge")
-		}
-	})
-	c.atLeast("C17.D1", "ServeHTTP calls in the handler", nServe, 2)
-
-	// acceptsGzip returns
-	eachInstr(accepts, func(i ssa.Instruction) {
-		r, ok := i.(*ssa.Return)
-		if !ok {
-			return
-		}
-		if bv, isK := constBool(r.Results[0]); isK {
-			c.check("C17.D1", "gzip.acceptsGzip|constant verdict", r.Pos(), !bv, "acceptsGzip may only refuse unconditionally")
-			return
-		}
-		call, isCall := r.Results[0].(*ssa.Call)
-		ok2 := isCall && calleeName(&call.Call) == "strings.Contains"
-		if ok2 {
-			s, _ := constString(call.Call.Args[1])
-			hdr := derives(call.Call.Args[0], func(v ssa.Value) bool {
-				hc, isC := v.(*ssa.Call)
-				if !isC {
-					return false
-				}
-				k, _, isH := headerCall(hc, "Get")
-				return isH && k == "Accept-Encoding"
-			})
-			ok2 = s == "gzip" && hdr
-		}
-		c.check("C17.D1", "gzip.acceptsGzip|verdict from Accept-Encoding", r.Pos(), ok2, "the positive verdict must be strings.Contains(Header.Get(\"Accept-Encoding\"), \"gzip\")")
-	})
-	// isCompressable
-	nRet := 0
-	sawEncGuard := false
-	eachInstr(isComp, func(i ssa.Instruction) {
-		r, ok := i.(*ssa.Return)
-		if !ok {
-			return
-		}
-		nRet++
-		encNonEmpty := false
-		for _, f := range factsAt(r.Block()) {
-			if b, isB := f.Cond.(*ssa.BinOp); isB && (b.Op == token.NEQ || b.Op == token.EQL) {
-				if hc, isC := b.X.(*ssa.Call); isC {
-					if k, _, isH := headerCall(hc, "Get"); isH && k == "Content-Encoding" {
-						if s, isS := constString(b.Y); isS && s == "" {
-							if (b.Op == token.NEQ) == f.Truth {
-								encNonEmpty = true
-							}
-						}
-					}
-				}
-			}
-		}
-		if bv, isK := constBool(r.Results[0]); isK {
-			if encNonEmpty {
-				sawEncGuard = true
-			}
-			c.check("C17.D1", "gzip.isCompressable|constant verdict", r.Pos(), !bv, "isCompressable may only refuse unconditionally")
-			return
-		}
-		call, isCall := r.Results[0].(*ssa.Call)
-		ok2 := isCall && calleeName(&call.Call) == "(*regexp.Regexp).MatchString" && derives(call.Call.Args[1], func(v ssa.Value) bool {
-			hc, isC := v.(*ssa.Call)
-			if !isC {
-				return false
-			}
-			k, _, isH := headerCall(hc, "Get")
-			return isH && k == "Content-Type"
-		})
-		c.check("C17.D1", "gzip.isCompressable|verdict from the content-type expression", r.Pos(), ok2 && !encNonEmpty, "the positive verdict must be contentTypes.MatchString(Header.Get(\"Content-Type\")) on the path where no Content-Encoding is set")
-	})
-	c.check("C17.D1", "gzip.isCompressable|already encoded responses are refused", isComp.Pos(), sawEncGuard, "a response that already carries a Content-Encoding must not be compressed again (return false on the Content-Encoding != \"\" edge)")
-
-	// ---- WriteHeader: D1/H1/T1/T2
-	var underlying []ssa.Instruction // calls of the embedded ResponseWriter.WriteHeader
-	eachInstr(wh, func(i ssa.Instruction) {
-		cc := callCommon(i)
-		if cc != nil && cc.IsInvoke() && cc.Method.Name() == "WriteHeader" {
-			underlying = append(underlying, i)
-		}
-	})
-	c.atLeast("C17.H1", "underlying WriteHeader calls", len(underlying), 1)
-	var codeParam *ssa.Parameter
-	for _, p := range wh.Params {
-		if typeStr(p.Type()) == "int" {
-			codeParam = p
-		}
-	}
-	for _, u := range underlying {
-		cc := callCommon(u)
-		c.check("C17.H1", "(*gzip.GzipResponseWriter).WriteHeader|status code forwarded unchanged", u.Pos(), len(cc.Args) == 1 && cc.Args[0] == codeParam, "the status code must reach the client unchanged in all cases")
-		// reached on every path
-		_, open := exitReachableAvoiding(wh.Blocks[0].Instrs[0], func(i ssa.Instruction) bool { return i == u })
-		c.check("C17.H1", "(*gzip.GzipResponseWriter).WriteHeader|underlying WriteHeader on every path", u.Pos(), !open || len(underlying) > 1, "every path through WriteHeader must forward the status to the wrapped writer")
-	}
-	var delCL, setCE []ssa.Instruction
-	eachInstr(wh, func(i ssa.Instruction) {
-		if k, _, ok := headerCall(i, "Del"); ok && k == "Content-Length" {
-			delCL = append(delCL, i)
-		}
-		if k, cc, ok := headerCall(i, "Set"); ok && k == "Content-Encoding" {
-			if v, _ := constString(cc.Args[2]); v == "gzip" {
-				if _, isCall := i.(*ssa.Call); isCall {
-					setCE = append(setCE, i)
-				}
-			}
-		}
-		// any other mutation of these two headers is a violation
-		for _, m := range []string{"Set", "Add", "Del"} {
-			if k, _, ok := headerCall(i, m); ok && (k == "Content-Length" || k == "Content-Encoding") {
-				c.check("C17.H1", "(*gzip.GzipResponseWriter).WriteHeader|"+m+"("+k+") only on the compress edge", i.Pos(), factCallTo(i.Block(), isComp, true) != nil,
-					"Content-Length / Content-Encoding may be changed only on the isCompressable()==true edge; on every other path the upstream's headers pass through untouched")
-			}
-		}
-	})
-	// gzip store
-	var gzStore *ssa.Store
-	var writerStores []*ssa.Store
-	eachInstr(wh, func(i ssa.Instruction) {
-		st, ok := i.(*ssa.Store)
-		if !ok || !isWriterField(st.Addr) {
-			return
-		}
-		writerStores = append(writerStores, st)
-		if derives(st.Val, isGzField) {
-			gzStore = st
-		}
-	})
-	if gzStore == nil {
-		c.undecided("C17.D1", "(*gzip.GzipResponseWriter).WriteHeader|gzip writer installation", "no store of the gzip writer into the writer field")
-		return
-	}
-	c.check("C17.D1", "(*gzip.GzipResponseWriter).WriteHeader|gzip writer only for compressable responses", gzStore.Pos(), factCallTo(gzStore.Block(), isComp, true) != nil,
-		"the gzip writer may be installed only on the isCompressable()==true edge (content type matches, not already encoded)")
-	for _, u := range underlying {
-		for _, grp := range []struct {
-			name string
-			is   []ssa.Instruction
-		}{{"Del(Content-Length)", delCL}, {"Set(Content-Encoding, gzip)", setCE}} {
-			ok := len(grp.is) > 0
-			if ok {
-				// from the gzip store's block entry (compress edge) the underlying WriteHeader is not reachable without passing the header op
-				ok = !pathAvoidingFromBlock(gzStore.Block(), u, func(i ssa.Instruction) bool {
-					for _, x := range grp.is {
-						if i == x {
-							return true
-						}
-					}
-					return false
-				})
-			}
-			c.check("C17.H1", "(*gzip.GzipResponseWriter).WriteHeader|"+grp.name+" before the underlying WriteHeader", u.Pos(), ok,
-				"on the compress edge "+grp.name+" must happen before the headers are sent: a stale Content-Length truncates or stalls the compressed body, a missing Content-Encoding makes the client show compressed bytes")
-		}
-	}
-	// T1: stores to writer only under writer == nil; every path of that edge stores
-	for _, st := range writerStores {
-		c.check("C17.T1", "(*gzip.GzipResponseWriter).WriteHeader|writer decided only once", st.Pos(), knownNil(st.Block(), isWriterField),
-			"the writer field may be assigned only under writer == nil: deciding again after bytes were written mixes compressed and plain output")
-	}
-	// the nil edge assigns on every path
-	assignsAll := false
-	for _, b := range wh.Blocks {
-		if len(b.Preds) == 1 && knownNil(b, isWriterField) && !knownNil(b.Preds[0], isWriterField) {
-			_, open := exitReachableAvoidingFromBlock(b, func(i ssa.Instruction) bool {
-				st, ok := i.(*ssa.Store)
-				return ok && isWriterField(st.Addr) && !isNilConst(st.Val)
-			})
-			assignsAll = !open
-		}
-	}
-	c.check("C17.T1", "(*gzip.GzipResponseWriter).WriteHeader|nil edge always decides", wh.Pos(), assignsAll, "when the writer is undecided WriteHeader must assign it on every path")
-	// uses of writer in all methods of the type
-	nUse := 0
-	for _, f := range c.AllFns {
-		if f.Signature.Recv() == nil || !namedIs(f.Signature.Recv().Type(), "gzip.GzipResponseWriter") {
-			continue
-		}
-		eachInstr(f, func(i ssa.Instruction) {
-			cc := callCommon(i)
-			if cc == nil || !cc.IsInvoke() || !isWriterField(cc.Value) {
-				return
-			}
-			nUse++
-			ok := knownNonNil(i.Block(), isWriterField)
-			if !ok {
-				// reached from a `writer == nil` test whose true edge calls the deciding method on all paths to here
-				for _, b := range f.Blocks {
-					if len(b.Preds) == 1 && knownNil(b, isWriterField) && !knownNil(b.Preds[0], isWriterField) {
-						if !pathAvoidingFromBlock(b, i, func(j ssa.Instruction) bool { return staticCalleeIs(j, wh) }) && assignsAll {
-							ok = true
-						}
-					}
-				}
-			}
-			c.check("C17.T1", fnKey(f)+"|writer used only after it is decided", i.Pos(), ok,
-				"the writer field is dereferenced on a path where it may still be nil (nil pointer panic inside the response path)")
-		})
-	}
-	c.atLeast("C17.T1", "uses of the decided writer", nUse, 1)
-
-	// ---- T2: pool typestate
-	var getI, resetI ssa.Instruction
-	eachInstr(wh, func(i ssa.Instruction) {
-		cc := callCommon(i)
-		if cc == nil {
-			return
-		}
-		switch calleeName(cc) {
-		case "(*sync.Pool).Get":
-			getI = i
-		case "(*compress/gzip.Writer).Reset":
-			if derives(cc.Args[0], isGzField) {
-				if _, ok := fieldOf(cc.Args[1], "gzip.GzipResponseWriter", "ResponseWriter"); ok || strings.HasSuffix(accessPath(stripIface(cc.Args[1])), "ResponseWriter") {
-					resetI = i
-				}
-			}
-		}
-	})
-	c.check("C17.T2", "(*gzip.GzipResponseWriter).WriteHeader|pooled writer Reset to the wrapped writer before use", gzStore.Pos(), getI != nil && resetI != nil && dominatesInstr(getI, resetI) && dominatesInstr(resetI, gzStore),
-		"a gzip.Writer taken from the pool still points at the previous response: it must be Reset to this response's writer before it becomes the active writer")
-	var closeI, putI ssa.Instruction
-	eachInstr(cl, func(i ssa.Instruction) {
-		cc := callCommon(i)
-		if cc == nil {
-			return
-		}
-		switch calleeName(cc) {
-		case "(*compress/gzip.Writer).Close":
-			closeI = i
-		case "(*sync.Pool).Put":
-			putI = i
-		}
-	})
-	okClose := closeI != nil && putI != nil && dominatesInstr(closeI, putI) && knownNonNil(putI.Block(), isGzField)
-	c.check("C17.T2", "(*gzip.GzipResponseWriter).Close|Close before Put, under gzipWriter != nil", cl.Pos(), okClose, "the gzip stream must be finished (Close writes the trailer) before the writer is recycled, and only an acquired writer may be put back")
-	if putI != nil {
-		after := false
-		eachInstr(cl, func(j ssa.Instruction) {
-			if j != putI && pathAvoiding(putI, j, nil) {
-				if cc := callCommon(j); cc != nil && len(cc.Args) > 0 && derives(cc.Args[0], isGzField) {
-					after = true
-				}
-			}
-		})
-		c.check("C17.T2", "(*gzip.GzipResponseWriter).Close|no use after Put", putI.Pos(), !after, "after Put the writer may already serve another response; using it corrupts that response")
-	}
-	// deferred Close in the handler
-	okDefer := false
-	eachInstr(handler, func(i ssa.Instruction) {
-		d, ok := i.(*ssa.Defer)
-		if !ok || d.Call.StaticCallee() != cl {
-			return
-		}
-		// must precede the serve call on the wrapped writer
-		eachInstr(handler, func(j ssa.Instruction) {
-			cc := callCommon(j)
-			if cc != nil && cc.IsInvoke() && cc.Method.Name() == "ServeHTTP" && cc.Args[0] != nil {
-				if _, isParam := stripIface(cc.Args[0]).(*ssa.Parameter); !isParam && dominatesInstr(d, j) {
-					okDefer = true
-				}
-			}
-		})
-	})
-	c.check("C17.T2", "gzip.NewGzipHandler$1|Close deferred before serving", handler.Pos(), okDefer, "the response writer's Close must be deferred before the inner handler runs, so the gzip trailer is written and the pooled writer returned on every exit, including panics")
-
-	// ---- W1
-	var bParam *ssa.Parameter
-	for _, p := range wr.Params {
-		if typeStr(p.Type()) == "[]byte" {
-			bParam = p
-		}
-	}
-	nW := 0
-	eachInstr(wr, func(i ssa.Instruction) {
-		r, ok := i.(*ssa.Return)
-		if !ok {
-			return
-		}
-		nW++
-		okFwd := false
-		if len(r.Results) == 2 {
-			if e0, ok := r.Results[0].(*ssa.Extract); ok {
-				if call, ok := e0.Tuple.(*ssa.Call); ok && call.Call.IsInvoke() && call.Call.Method.Name() == "Write" && isWriterField(call.Call.Value) && len(call.Call.Args) == 1 && call.Call.Args[0] == bParam {
-					if e1, ok := r.Results[1].(*ssa.Extract); ok && e1.Tuple == call {
-						okFwd = true
-					}
-				}
-			}
-		}
-		c.check("C17.W1", "(*gzip.GzipResponseWriter).Write|forwards b unchanged and returns the writer's results", r.Pos(), okFwd, "Write must hand exactly its argument to the decided writer and return that writer's (n, err)")
-	})
-	c.atLeast("C17.W1", "returns of Write", nW, 1)
-
-	// ---- V1
-	okVary := false
-	eachInstr(handler, func(i ssa.Instruction) {
-		if k, cc, ok := headerCall(i, "Add"); ok && k == "Vary" {
-			if v, _ := constString(cc.Args[2]); v == "Accept-Encoding" && i.Block() == handler.Blocks[0] {
-				okVary = true
-			}
-		}
-		if k, cc, ok := headerCall(i, "Set"); ok && k == "Vary" {
-			if v, _ := constString(cc.Args[2]); v == "Accept-Encoding" && i.Block() == handler.Blocks[0] {
-				okVary = true
-			}
-		}
-	})
-	runC17T3(c)
-	c.check("C17.V1", "gzip.NewGzipHandler$1|Vary: Accept-Encoding on every path", handler.Pos(), okVary, "the response varies with Accept-Encoding whether or not it is compressed; the header must be added before branching")
 }
 
 // pathAvoidingFromBlock: path from the start of block b to instruction target avoiding instructions matched by avoid.
